@@ -12,4 +12,5 @@ CONSTANTS
   Invalid = FALSE
   Crashes = FALSE
   Restarts = FALSE
+  Extra = {}
 INVARIANTS GraphWellFormed NoUseAfterFree Balanced DirExactWhenQuiet ViewComplete OneIdPerConn NeverStuck FlagsMatchJobs NeverStale
